@@ -13,6 +13,7 @@ declare -A ONLY=(
  [C05-C]="dialects" [C05-D]="RenameRequest" [C06-C]="" [C06-D]="" [C07-C]="" [C07-D]="" [C08-C]="" [C08-D]="" [C09-C]="" [C09-D]=""
  [C10-C]="" [C10-D]="" [C11-C]="" [C11-D]="" [C12-C]="" [C12-D]="" [C13-C]="" [C13-D]="" [C15-C]="" [C15-D]="" [C16-C]="" [C16-D]=""
  [C19-C]="" [C19-D]="" [C20-C]="" [C20-D]=""
+ [C08-A]="" [C14-C]="" [C14-D]=""
 )
 seeds=("$@"); [ ${#seeds[@]} -eq 0 ] && seeds=($(printf '%s\n' "${!ONLY[@]}" | sort))
 fail=0
